@@ -428,6 +428,15 @@ func (c *Channel) FinishMessage(clientID int64, id MessageID) error {
 //
 //	and requeue a message (aka "deferred requeue")
 func (c *Channel) RequeueMessage(clientID int64, id MessageID, timeout time.Duration) error {
+	// a closing channel persists what is in flight; do not take the message
+	// out of the in-flight set once exit() has begun (it holds exitMutex
+	// until its flush is done), or nobody would write it to the backend
+	c.exitMutex.RLock()
+	defer c.exitMutex.RUnlock()
+	if c.Exiting() {
+		return errors.New("exiting")
+	}
+
 	// remove from inflight first
 	msg, err := c.popInFlightMessage(clientID, id)
 	if err != nil {
@@ -437,14 +446,7 @@ func (c *Channel) RequeueMessage(clientID int64, id MessageID, timeout time.Dura
 	atomic.AddUint64(&c.requeueCount, 1)
 
 	if timeout == 0 {
-		c.exitMutex.RLock()
-		if c.Exiting() {
-			c.exitMutex.RUnlock()
-			return errors.New("exiting")
-		}
-		err := c.put(msg)
-		c.exitMutex.RUnlock()
-		return err
+		return c.put(msg)
 	}
 
 	// deferred requeue
